@@ -51,6 +51,10 @@ REPLACEMENTS = [",", ":", "(", ")", "[", "]", ".", "#", '"', "'", "+", "-", "--1
 TOKEN = re.compile(r"\"[^\"\n]*\"|[A-Za-z_][A-Za-z_0-9]*|-?0x[0-9A-Fa-f]+|-?0b[01]+|-?[0-9]+|[^\sA-Za-z_0-9]")
 
 
+EOL = re.compile(r"\r\n|\r|\n")  # what an editor (and str.splitlines on these texts) takes for the end of a line
+EOL_FAULTS = ("<delete>", "0x", "nolabel", ":")
+
+
 def tokens_of(text):
     """[(line index, start, end)] for every token of every line (comments included as tokens of their own characters)."""
     out = []
@@ -93,7 +97,7 @@ def classify_load(arch, text, allow_memory_errors=False, timeout=10):
         return ("load-does-not-terminate", f"load_program did not return within {timeout} s")
     except ParserException as e:
         n = e.line_number
-        lines = text.split("\n")
+        lines = EOL.split(text)
         if not isinstance(n, int) or isinstance(n, bool) or not (1 <= n <= len(lines)):
             return ("bad-line-number", f"{type(e).__name__} carries line_number={n!r}; the text has {len(lines)} lines")
         if not lines[n - 1].strip():
@@ -151,6 +155,16 @@ def inject_shard(shard):
                             f"{arch} base #{bi}, token {ti} -> {fl!r}: {d[1]}; line: {text.split(chr(10))[tok[0]][:80]!r}", size=(len(base), ti, len(fault)))
             else:
                 p.counters["typed-or-accepted"] += 1
+            if fault in EOL_FAULTS:
+                # the same faulty text with the other line endings an editor produces: the reported line must still exist
+                for eol, eolname in (("\r\n", "CRLF"), ("\r", "CR")):
+                    t2 = text.replace("\n", eol)
+                    p.evaluations += 1
+                    p.counters["other-line-endings"] += 1
+                    d2 = classify_load(arch, t2)
+                    if d2:
+                        p.violation(dict(oracle="load-error-typing", arch=arch, field=d2[0], fault=fault, eol=eolname), dict(kind="text", arch=arch, text=t2, base=bi, tok=ti, fault=fault),
+                                    f"{arch} base #{bi} with {eolname} line endings, token {ti} -> {fault!r}: {d2[1]}", size=(len(base), ti, len(fault)))
     if pairs:
         # all pairs of faults from a small alphabet on the shortest bases
         small = ["<delete>", ",", ":", "007", "0x", "nolabel", ".data", "#", "x32", "-"]
@@ -471,4 +485,4 @@ def run(ctx):
     part = pmap(runtime_shard, shards)
     part.merge(pmap(unimpl_shard, list(range(len(UNIMPL)))))
     ctx.space("run-time-errors", part, t0)
-    ctx.require("typed-or-accepted", "runtime-fault", "runtime-fault-with-cache", "unimplemented-typed")
+    ctx.require("other-line-endings", "typed-or-accepted", "runtime-fault", "runtime-fault-with-cache", "unimplemented-typed")
